@@ -290,6 +290,7 @@ func (p *Program) installIntrinsics() {
 	p.installDeepCopy()
 	p.installOS()
 	p.installURL()
+	p.installBytealg()
 	p.installCSV()
 	p.installVerif()
 }
